@@ -186,8 +186,24 @@ def quat_from_axis_angle_vector(v):
 
 
 def rotation_from_euler(cls, seq, angles, degrees=False):
-    raise Unsupported("Rotation.from_euler in symbolic code")
+    """uninterpreted: a rotation with fresh unit quaternions, remembering (seq, angles, degrees);
+    as_euler with the same seq/degrees returns exactly these angles (scipy's own inverse pair)."""
+    ex = cur()
+    ang = A.to_symarray(angles)
+    single = ang.ndim == 1
+    n = 1 if single else ang.shape[0]
+    rows = []
+    for i in range(n):
+        q = [Sym(z3.Real(ex.fresh_name(f"eulerq{c}"))) for c in "xyzw"]
+        ex.assume(sum((c.e * c.e for c in q), z3.RealVal(0)) == 1)
+        rows.append(q)
+    rot = cls(rows[0] if single else rows, normalize=False)
+    rot._euler = (str(seq), ang.copy(), bool(degrees))
+    return rot
 
 
 def euler_of_rotation(rot, seq, degrees=False):
-    raise Unsupported("Rotation.as_euler in symbolic code")
+    tag = getattr(rot, "_euler", None)
+    if tag is None or tag[0] != str(seq) or tag[2] != bool(degrees):
+        raise Unsupported("as_euler of a rotation that was not built by from_euler with the same sequence (scipy numerics are not modelled)")
+    return tag[1].copy()
